@@ -159,12 +159,13 @@ def oracle(ctx, seeds=None):
             if i % 2 == 1 and name in ('implicit', 'cranknicolson', 'gear'):
                 name = 'rk3ssp'     # implicit steps on rough data amplify the O(epsdiff) Jacobian asymmetry (K3) arbitrarily
             cfl = 0.3 if name not in ('implicit', 'cranknicolson', 'gear') else 1.0
+            loc = {'directives': {'dtlocal': True}} if (i // 5) % 3 == 1 else {}      # "every solve() directive": local time steps too
             def run():
-                a_ = getattr(impl.integ, name)(msh, disc).solve(f, cfl, stop={'maxit': 3})[-1]
-                b_ = getattr(impl.integ, name)(mshm, discm).solve(fm, cfl, stop={'maxit': 3})[-1]
+                a_ = getattr(impl.integ, name)(msh, disc).solve(f, cfl, stop={'maxit': 3}, **loc)[-1]
+                b_ = getattr(impl.integ, name)(mshm, discm).solve(fm, cfl, stop={'maxit': 3}, **loc)[-1]
                 return a_, b_
             ok, out = impl.guarded(run)
-            res.case(('mirror-solve', name, model))
+            res.case(('mirror-solve', name, model, bool(loc)))
             if ok and not out[0].isnan() and not out[1].isnan():
                 a_, b_ = out
                 implicit = name in ('implicit', 'cranknicolson', 'gear')
@@ -258,6 +259,34 @@ def oracle(ctx, seeds=None):
                 bad = bad or not np.all(np.abs(qs_.data[k] / cf[k] - q0_.data[k]) <= 1e-11 * sc)
             if bad:
                 res.fail('%s:units-solve' % model, "snapshot of the rescaled twin (rho*2^%d, u*2^%d, x*2^%d) is not the rescaled snapshot (time %r vs %r)" % (ka, kb, kl, qs_.time, q0_.time * tf), rp); break
+    # ---------------- reflection with the implicit family, local time steps, systems (smooth data: the K3 asymmetry stays O(epsdiff))
+    for j_, (name, model) in enumerate([(a_, b_) for a_ in ('implicit', 'cranknicolson', 'gear') for b_ in ('euler', 'sw')]):
+        cfg = cfg1d.rand_config(rng, units=False, model=model, per=True, n=int(rng.integers(4, 8)), meshkind='uni', smooth=True,
+                                scheme=['extrapol1'], flux={'euler': 'hlle', 'sw': 'rusanov'}[model])
+        mc, length = mirror_cfg(cfg)
+        def run():
+            mod, msh, disc, f = cfg1d.build(cfg)
+            modm, mshm, discm, fm = build_with_length(mc, length)
+            a_ = getattr(impl.integ, name)(msh, disc).solve(f, 1.0, stop={'maxit': 3}, directives={'dtlocal': True})[-1]
+            b_ = getattr(impl.integ, name)(mshm, discm).solve(fm, 1.0, stop={'maxit': 3}, directives={'dtlocal': True})[-1]
+            return a_, b_, mod.neq
+        ok, out = impl.guarded(run)
+        res.case(('mirror-solve-implicit-dtlocal', name, model))
+        rp = dict(cfg=cfg, kind='mirror-solve', integrator=name, directives={'dtlocal': True})
+        if not ok:
+            if 'Singular matrix' in str(out) or 'LinAlgError' in str(out):
+                res.count('skipped-singular-implicit-system'); continue
+            res.fail('%s:mirror-solve-raised' % model, out, rp); continue
+        a_, b_, neq = out
+        if a_.isnan() or b_.isnan():
+            continue
+        worst = 0.0
+        for k in range(neq):
+            sg = -1.0 if k in ODD[model] else 1.0
+            sc = float(np.max(np.abs(a_.data[k]))) + 1e-300
+            worst = max(worst, float(np.max(np.abs(b_.data[k] - sg * a_.data[k][::-1]))) / sc)
+        if worst > 1e-3:
+            res.fail('%s:mirror-solve:%s:dtlocal:large' % (model, name), "solve(mirror problem) != mirror(solve) with local time steps: relative difference %r after 3 steps" % worst, rp)
     # ---------------- change of units with the implicit family on nonlinear systems: the finite-difference Jacobian perturbs each
     # conservative component relative to ITS magnitude, so the linearised step is the rescaled one (moderate factors: the dense
     # solve pivots on magnitudes, its round-off is not bit for bit the rescaled one -> bounded comparison on smooth data)
